@@ -360,7 +360,7 @@ theorem sigtime_rt (t : Nat) (ht : t < 4294967296) :
 theorem field_sigtime (st : Style) (env : PEnv) (t : Nat) (ht : t ≤ 4294967295) :
     ∃ text, FieldRT st env .sigtime (.n t) text ⟨.ident, text⟩ := by
   obtain ⟨a, b, c⟩ := sigtime_rt t (by omega)
-  refine ⟨_, rfl, lexes_plain _ c b, ?_, notHash_plain _ b⟩
+  refine ⟨sigtimeToText t, by simp only [printField], lexes_plain _ c b, ?_, notHash_plain _ b⟩
   simp [parseField, parseFieldExtra, unescapeCP_plain_all _ b, a]
 
 end Model
